@@ -127,15 +127,15 @@ PLANS = {
     ),
     'C05': dict(
         module='RucteProps.C05',
-        extra_modules=['RucteProps.C05Complete'],
-        theorems=['Ructe.C05.expression_sound', 'Ructe.C05.exprInsideParens_sound', 'Ructe.C05.quotedString_sound', 'Ructe.C05.expression_nonempty', 'Ructe.C05.expression_no_panic', 'Ructe.C05.emit_verbatim', 'Ructe.C05.slash_pinned_witness', 'Ructe.C05.rustName_complete', 'Ructe.C05.rustComment_complete', 'Ructe.C05.quotedString_complete', 'Ructe.C05.exprInsideParens_complete', 'Ructe.C05.exprInParens_complete', 'Ructe.C05.stops_simple', 'Ructe.C05.stops_dot_nonident', 'Ructe.C05.expression_name_complete', 'Ructe.C05.expression_call_complete'],
+        extra_modules=['RucteProps.C05Complete', 'RucteProps.C05Chain'],
+        theorems=['Ructe.C05.expression_sound', 'Ructe.C05.exprInsideParens_sound', 'Ructe.C05.quotedString_sound', 'Ructe.C05.expression_nonempty', 'Ructe.C05.expression_no_panic', 'Ructe.C05.emit_verbatim', 'Ructe.C05.slash_pinned_witness', 'Ructe.C05.rustName_complete', 'Ructe.C05.rustComment_complete', 'Ructe.C05.quotedString_complete', 'Ructe.C05.exprInsideParens_complete', 'Ructe.C05.exprInParens_complete', 'Ructe.C05.stops_simple', 'Ructe.C05.stops_dot_nonident', 'Ructe.C05.expression_name_complete', 'Ructe.C05.expression_call_complete', 'Ructe.C05.expression_complete', 'Ructe.C05.expression_complete_follower', 'Ructe.C05.expression_complete_eof', 'Ructe.C05.expression_complete_flat', 'Ructe.C05.expression_complete_tree', 'Ructe.C05.stops_classes', 'Ructe.C05.doc_a_dot_at_a', 'Ructe.C05.doc_a_dot_eof', 'Ructe.C05.ex_paren_len', 'Ructe.C05.DExpr.wf_iff'],
         runs=[dict(suite='sub', n=dict(quick=20000, thorough=600000), projection='identity', tags=['C05']),
               dict(suite='parse', mix='structured,examples', n=dict(quick=2000, thorough=30000), projection='body', tags=['C05'])],
         correspondence='consumed length / value / error list of expression, expr_inside_parens, quoted_string, rust_comment and the other named sub-parsers, and the syntax tree + body code of whole templates, vs the Lean transcription',
         rule='expressions from the documented grammar (prefix, atom, postfix chain, nested groups with plain runs / strings with every supported escape and embedded delimiters / block comments with embedded delimiters and quotes / division followed by delimiters and quotes) x 18 follower classes; near-miss token strings through 15 sub-parsers; non-trivial = distinct documented fragments',
         assumptions=['the fragment is opaque Rust: that it reaches rustc unmodified is the correspondence on the printed code; that it is evaluated once is the e2e run'],
-        level_text='Proved: expression_sound / exprInsideParens_sound / exprInParens_sound / quotedString_sound (the fragment is exactly the consumed prefix, valid UTF-8), expression_nonempty, expression_no_panic, emit_verbatim (printed once, unmodified). Completeness is proved for: names (rustName_complete), block comments (rustComment_complete), string literals with every supported escape (quotedString_complete), the full documented group grammar — nested (), [], {} groups, strings and comments hiding delimiters, division — between parentheses (exprInsideParens_complete, exprInParens_complete: `@( .. )` ends at its matching parenthesis), the documented followers (stops_*), and `name` / `name(..)` followed by a follower (expression_name_complete, expression_call_complete). The general chain (`.member`, `::path`, `[..]`, `{..}`, `!(..)` in any combination) is validated by the generator oracle of the sub suite (documented grammar x 18 follower classes), not proved.',
-        level_note='Trusted: Lean kernel; hand-written transcription of expression.rs (validated by the tie). K direction partial.',
+        level_text='Proved: expression_sound / exprInsideParens_sound / exprInParens_sound / quotedString_sound (the fragment is exactly the consumed prefix, valid UTF-8), expression_nonempty, expression_no_panic, emit_verbatim (printed once, unmodified). Completeness (maximal munch) is proved for the WHOLE documented grammar: expression_complete — for every documented expression e (optional & or * prefix; atom = name | digits | string literal | (..) | [..]; any chain of .member, ::path, (..), [..], {..}, !(..), ![..] with the documented group content: nested groups, string literals and /* */ comments hiding delimiters, division), every follower on which the chain cannot continue (Stops rest; decidable sufficient condition stopsB with stops_classes: end of input, white space, < > @ , ) ] } ; = quotes, `.` / `::` before a non-expression start, `!` not before ( or [) and every fuel >= e.fuel, expression (print e ++ rest) = ok rest (print e); the right-nested, flat and tree views of the chain are proved equivalent (expression_complete_flat, expression_complete_tree, nest_flat, flat_nest); each hypothesis is shown necessary by a kernel-checked counterexample; the documentation examples `@a.@a`, `@a.`, `(a).len()` are corollaries (doc_a_dot_at_a, doc_a_dot_eof, ex_paren_len); `@( .. )` ends at its matching parenthesis (exprInsideParens_complete). Tie: sub-parser and whole-template differential runs; generator oracle documented extent x 18 follower classes.',
+        level_note='Trusted: Lean kernel; hand-written transcription of expression.rs (validated by the tie). Both directions proved for the documented grammar (DExpr); inputs outside it (e.g. unbalanced braces inside brackets, which the real scanner treats as plain bytes) are covered by soundness only.',
         design_ref='DESIGN.md §6 C05',
     ),
     'C13': dict(
@@ -152,13 +152,13 @@ PLANS = {
     ),
     'C15': dict(
         module='RucteProps.C15',
-        extra_modules=['RucteProps.C15Directives', 'RucteProps.C15Calls'],
-        theorems=['Ructe.C15.spacelike_complete', 'Ructe.C15.layout_irrelevant_at_slot', 'Ructe.C15.comment_complete', 'Ructe.C15.multispace0_complete', 'Ructe.C15.spacelike_total', 'Ructe.C15.pinned_comment_counterexample', 'Ructe.C15.if_layout_irrelevant', 'Ructe.C15.if_else_layout_irrelevant', 'Ructe.C15.for_layout_irrelevant', 'Ructe.C15.if_name_layout_irrelevant', 'Ructe.C15.match_layout_irrelevant', 'Ructe.C15.call_layout_irrelevant'],
+        extra_modules=['RucteProps.C15Directives', 'RucteProps.C15Calls', 'RucteProps.C15Tree'],
+        theorems=['Ructe.C15.spacelike_complete', 'Ructe.C15.layout_irrelevant_at_slot', 'Ructe.C15.comment_complete', 'Ructe.C15.multispace0_complete', 'Ructe.C15.spacelike_total', 'Ructe.C15.pinned_comment_counterexample', 'Ructe.C15.if_layout_irrelevant', 'Ructe.C15.if_else_layout_irrelevant', 'Ructe.C15.for_layout_irrelevant', 'Ructe.C15.if_name_layout_irrelevant', 'Ructe.C15.match_layout_irrelevant', 'Ructe.C15.call_layout_irrelevant', 'Ructe.C15Tree.nodes_complete', 'Ructe.C15Tree.block_complete', 'Ructe.C15Tree.body_complete', 'Ructe.C15Tree.node_complete', 'Ructe.C15Tree.layout_irrelevant_tree', 'Ructe.C15Tree.layout_irrelevant_block', 'Ructe.C15Tree.no_swallow_after_block'],
         runs=[dict(suite='parse', mix='structured', n=dict(quick=5000, thorough=50000), projection='text', tags=['C15'])],
         correspondence='generated code, byte for byte, of canonical and perturbed prints of the same source tree vs the model\'s single answer',
         rule='every structured template printed canonically and twice with random admissible layouts (white space, LF, CRLF, tabs, 8 comment shapes incl. `**@` endings) at every slot kind; non-trivial = distinct accepted syntax trees',
         assumptions=[],
-        level_text='Proved: at every layout slot of the grammar any admissible layout is consumed completely and is indistinguishable from any other (spacelike_complete, layout_irrelevant_at_slot, comment_complete, multispace0_complete, spacelike_total, spacelike_sound). Compositional completeness lemmas for the directives are proved (if_layout_irrelevant, if_else_layout_irrelevant, for_layout_irrelevant, if_name_layout_irrelevant, match_layout_irrelevant, call_layout_irrelevant): any admissible layout at the slots of the directive yields the same node. The induction over a whole source tree is not proved; it is covered by the metamorphic oracle (canonical vs perturbed prints give byte-identical code and the documented tree) + tie on the full text.',
+        level_text='Proved: at every layout slot of the grammar any admissible layout is consumed completely and is indistinguishable from any other (spacelike_complete, layout_irrelevant_at_slot, comment_complete, multispace0_complete, spacelike_total, spacelike_sound). Compositional completeness lemmas for the directives are proved (if_layout_irrelevant, if_else_layout_irrelevant, for_layout_irrelevant, if_name_layout_irrelevant, match_layout_irrelevant, call_layout_irrelevant): any admissible layout at the slots of the directive yields the same node. The induction over a whole source tree IS proved (RucteProps/C15Tree.lean over RucteProofs/SrcTree*.lean): for every source tree of the documented body syntax (text, @@ @{ @}, comments, @name, @name(group), @(group), @if with else / else-if chains, @for, @match, @:call with Rust and block arguments, nested to any depth, with a layout slot at every place the syntax allows insignificant material) that meets the explicit well-formedness predicate WF, the parser returns exactly the intended tree (nodes_complete, block_complete, body_complete, node_complete, fuel bound explicit), hence two trees that differ only in their layout slots parse to the same tree and give byte-identical code (layout_irrelevant_tree, layout_irrelevant_block), and nothing after a closing brace is swallowed (no_swallow_after_block). Fragments inside directives are plain names in this theorem (general fragments: C05.expression_complete); the template header is not part of it. Those parts are covered by the metamorphic oracle (canonical vs perturbed prints give byte-identical code and the documented tree) + tie on the full text.',
         level_note='Trusted: Lean kernel; hand-written model; generator\'s notion of admissible layout.',
         design_ref='DESIGN.md §6 C15',
     ),
@@ -287,13 +287,14 @@ PLANS = {
     ),
     'C03': dict(
         module='RucteProps.C03',
-        theorems=['Ructe.C03.render_if_taken', 'Ructe.C03.render_else_if', 'Ructe.C03.else_if_flattening', 'Ructe.C03.render_for', 'Ructe.C03.render_match', 'Ructe.C03.render_seq', 'Ructe.C03.render_fuel_mono'],
+        extra_modules=['RucteProps.C15Tree'],
+        theorems=['Ructe.C15Tree.no_swallow_after_block', 'Ructe.C15Tree.block_complete', 'Ructe.C03.render_if_taken', 'Ructe.C03.render_else_if', 'Ructe.C03.else_if_flattening', 'Ructe.C03.render_for', 'Ructe.C03.render_match', 'Ructe.C03.render_seq', 'Ructe.C03.render_fuel_mono'],
         runs=[dict(suite='e2e', n=dict(quick=800, thorough=12000), projection='identity', tags=['C03']),
               dict(suite='parse', mix='structured,examples', n=dict(quick=1500, thorough=25000), projection='body', tags=['C03'])],
         correspondence='bytes written by the rustc-compiled generated functions vs Ructe.renderL (specification semantics under the mini-Rust Sem) of the model\'s parse; syntax tree and body code of structured templates vs the model',
         rule='typed template programs: 1..5 templates per program in up to 3 module levels, acyclic calls with 0..3 Content blocks (empty / comment-only / nested directives and calls), if / else-if chains / if-let / for over slices, tuples (& patterns), struct destructuring, ranges, enumerate / match with 2..3 arms, every relational operator, negation, &&, ||; 3 argument sets per program; every rendering re-run under fault sinks (failure at every byte offset for renderings up to 48 bytes, sampled beyond; chunk sizes 1 / 3 / 7 / unlimited; Interrupted every 2nd / 5th call); non-trivial = distinct renderings + distinct accepted syntax trees',
         assumptions=['user fragments are pure and infallible', 'the mini-Rust evaluator (RucteModel/MiniRust.lean) agrees with rustc on the generated fragment language (validated by this run)'],
-        level_text='Proved for every Sem (meaning of user fragments), program, fuel, environment and sink: exec_realises (the emitted statements realise the specification rendering), render_if_taken / render_if_not_taken / render_else_block / render_else_if / else_if_flattening / render_for / render_iter_cons / render_match / render_seq / render_fuel_mono. The parser side (which source becomes which tree) is soundness-proved per node kind (C01, C05) and otherwise validated by the documented-tree oracle. Tie: rustc-compiled code vs the Lean rendering on generated typed programs.',
+        level_text='Proved for every Sem (meaning of user fragments), program, fuel, environment and sink: exec_realises (the emitted statements realise the specification rendering), render_if_taken / render_if_not_taken / render_else_block / render_else_if / else_if_flattening / render_for / render_iter_cons / render_match / render_seq / render_fuel_mono. The parser side (which source becomes which tree): for every well-formed source tree of the documented body syntax the parser returns the intended tree with block bodies in full, and after a block's closing brace the following nodes are parsed as themselves unless an else really follows (C15Tree.block_complete, C15Tree.no_swallow_after_block; directive fragments are plain names there, general fragments by C05.expression_complete); beyond that it is validated by the documented-tree oracle. Tie: rustc-compiled code vs the Lean rendering on generated typed programs.',
         level_note='Trusted: Lean kernel; hand-written model; print : IR -> text is validated by rustc runs, not proved; rustc.',
         design_ref='DESIGN.md §6 C03',
     ),
